@@ -15,6 +15,7 @@ package main
 
 import (
 	"fmt"
+	"os"
 	"sort"
 	"strings"
 	"sync"
@@ -528,7 +529,7 @@ func main() {
 			break
 		}
 	}
-	if len(classes) > 0 {
+	if len(classes) > 0 && (r.Violations() > 0 || os.Getenv("VERIF_VERBOSE") != "") {
 		fmt.Println("violation classes (count, features, shortest example):")
 		for _, k := range sessrig.SortedKeys(classes) {
 			fmt.Printf("  %5d %s\n        e.g. %s\n", classes[k], k, classEx[k])
